@@ -5,7 +5,9 @@ exhaustive over all strings up to length L over one representative character
 per lexical class.  That representatives suffice is justified by the
 mechanically checked obligation C08/parse_smtlib/class-abstraction: every
 branch condition of the scanner depends on the text only through membership
-of the current character in literal character sets that the alphabet covers.
+of a character of the text (the current one, or the last one collected into a
+local that provably holds nothing else) in literal character sets that the
+alphabet covers.
 """
 import ast
 import os
@@ -33,13 +35,56 @@ def run_class_abstraction(eng, p):
             return [e.value for e in node.elts]
         return None
 
+    def holds_text_chars(name):
+        """``name`` only ever holds characters read from the text (a list of
+        them, or their concatenation), or literal single characters: every
+        assignment, augmented assignment and append is inspected."""
+        seen = False
+        for n in ast.walk(fn):
+            vals = []
+            if isinstance(n, ast.Assign) and any(
+                    ast.unparse(t) == name for t in n.targets):
+                vals.append(n.value)
+            elif isinstance(n, ast.AugAssign) and \
+                    ast.unparse(n.target) == name:
+                if not isinstance(n.op, ast.Add):
+                    return False
+                vals.append(n.value)
+            elif isinstance(n, ast.Call) and isinstance(
+                    n.func, ast.Attribute) and ast.unparse(
+                        n.func.value) == name:
+                if n.func.attr != 'append' or len(n.args) != 1:
+                    return False
+                vals.append(ast.List(elts=[n.args[0]]))
+            for v in vals:
+                seen = True
+                u = ast.unparse(v)
+                if u in ('[char]', "''.join(%s)" % name):
+                    continue
+                cc = const_chars(v)
+                if cc is not None and all(len(x) == 1 for x in cc):
+                    chars.update(cc)
+                    continue
+                return False
+        return seen
+
+    def text_char(ls, left):
+        if ls == 'char' or ls == 'text[pos]':
+            return True
+        # the last character collected from the text, e.g. comment[-1]
+        if isinstance(left, ast.Subscript) and isinstance(
+                left.value, ast.Name) and ast.unparse(
+                    left.slice) == '-1':
+            return holds_text_chars(left.value.id)
+        return False
+
     def ok_compare(c):
         if len(c.ops) != 1:
             return False
         left, op, right = c.left, c.ops[0], c.comparators[0]
         ls = ast.unparse(left)
         rs = ast.unparse(right)
-        if ls == 'char' or ls == 'text[pos]':
+        if text_char(ls, left):
             cc = const_chars(right)
             if cc is not None and isinstance(op, (ast.In, ast.NotIn, ast.Eq,
                                                   ast.NotEq)):
@@ -261,7 +306,7 @@ def setup_scanner(eng):
         }
         p.ghost['yielded'] = []
 
-    def new_leaf(e, p, it, env_):
+    def new_leaf(e, p, it, env_, comment=False):
         """The one leaf this iteration produced (appended or yielded), with
         the obligations that nothing else happened to the structure."""
         v = env_.vars
@@ -290,11 +335,17 @@ def setup_scanner(eng):
         if len(got) != 1 or not is_node(got[0]):
             return None
         d = got[0].attrs.get('data')
+        if comment and isinstance(d, tm.SpanStr) and len(d.segs) == 2 and \
+                d.segs[0][0] == 'span' and d.segs[1][0] == 'chr':
+            # a comment: one span of the text and one character after it
+            return d.segs[0][1], d.segs[0][2], d.segs[1][1]
         if not isinstance(d, tm.SpanStr) or d.single_span() is None:
             p.oblige(f'{N}/token-text-is-a-contiguous-piece-of-the-input',
                      False, info={'data': repr(d)[:200], 'signature':
                                   'token text is not one span of the text'})
             return None
+        if comment:
+            return d.single_span() + (None,)
         return d.single_span()
 
     def nothing_structural(e, p, it, env_, what):
@@ -351,18 +402,36 @@ def setup_scanner(eng):
                      mk_bool(pos == a + 1))
         elif e.truth(mk_bool(c == SEMI)):
             cover('comment')
-            sp = new_leaf(e, p, it, env_)
+            sp = new_leaf(e, p, it, env_, comment=True)
             if sp is None:
                 return
-            lo, hi = sp
+            lo, hi, extra = sp
+            # C08: the text of the comment - the leaf without its line break -
+            # is what a standard reader takes for it: from ';' up to the
+            # first line break or the end of the text.  The leaf is that
+            # span with the line break read, or, when the text ends first,
+            # with one supplied.
+            ended = z3.And(hi == t.size,
+                           z3.Or(hi - 1 == a,
+                                 z3.Not(is_in(at(hi - 1), NL))))
+            broke = z3.And(is_in(at(hi - 1), NL), hi - 1 > a)
             p.oblige(f'{N}/comment-is-one-leaf-up-to-the-line-end', mk_bool(
                 z3.And(lo == a, hi == pos, hi > lo, hi <= t.size,
                        forall_range(a + 1, hi - 1,
                                     lambda i: z3.Not(is_in(at(i), NL))),
-                       z3.Or(z3.And(is_in(at(hi - 1), NL), hi - 1 > a),
-                             hi == t.size))),
+                       z3.Or(broke, ended),
+                       z3.BoolVal(True) if extra is None else z3.And(
+                           ended, is_in(extra.code, NL)))),
                 info={'signature': 'comment leaf is not exactly the text up '
                       'to and including the first line end'})
+            # C07: re-reading a rendering gives the same leaf only if the
+            # leaf ends where a reader ends a comment - at a line break
+            p.oblige('C07/parse_smtlib/comment-leaf-ends-with-a-line-break',
+                     mk_bool(broke if extra is None else
+                             is_in(extra.code, NL)),
+                     info={'signature': 'a comment that ends the input is '
+                           'kept without a line break: rendered and read '
+                           'again it is a different leaf'})
         elif e.truth(mk_bool(z3.Or(c == Q, c == BAR))):
             cover('literal')
             sp = new_leaf(e, p, it, env_)
